@@ -1,12 +1,1303 @@
-// Package c16: correspondence harness of C16 (stub: replaced when C16 is built).
+// Package c16: error-propagating helpers (Compose, Fmap/Join error forms, Traverse, ToError):
+// behavioural correspondence of call logs, results (zero-ness per result) and error identity,
+// plus the structural observation of the zero literals the generator wrote.
 package c16
 
 import (
 	"fmt"
+	"go/ast"
+	"go/parser"
+	"go/printer"
+	"go/token"
+	"os"
+	"path/filepath"
+	"sort"
+	"strings"
 
 	"verifharness/internal/hx"
 )
 
+// carrier: a Go type whose non-zero values can carry an id >= 1.
+type carrier struct {
+	name  string // identifier-safe
+	typ   string
+	enc   string // expression in x (int)
+	dec   string // expression in v
+	kind  string // bool string numeric unsafeptr ptr slice map chan func iface struct array
+	named bool
+}
+
+var carriers = []carrier{
+	{"int", "int", "x", "v", "numeric", false},
+	{"string", "string", "strconv.Itoa(x)", "atoi(v)", "string", false},
+	{"f64", "float64", "float64(x)", "int(v)", "numeric", false},
+	{"NI", "NI", "NI(x)", "int(v)", "numeric", true},
+	{"NS", "NS", "NS(strconv.Itoa(x))", "atoi(string(v))", "string", true},
+	{"S", "S", "S{A: x, B: \"b\"}", "v.A", "struct", true},
+	{"US", "struct{ X int }", "struct{ X int }{X: x}", "v.X", "struct", false},
+	{"arr2", "[2]int", "[2]int{x, x}", "v[0]", "array", false},
+	{"NA", "NA", "NA{x, 5}", "v[0]", "array", true},
+	{"ptrS", "*S", "&S{A: x}", "v.A", "ptr", false},
+	{"slint", "[]int", "[]int{x, 7}", "v[0]", "slice", false},
+	{"NSl", "NSl", "NSl{x}", "v[0]", "slice", true},
+	{"mapsi", "map[string]int", "map[string]int{\"k\": x}", "v[\"k\"]", "map", false},
+	{"iface", "interface{}", "interface{}(x)", "v.(int)", "iface", false},
+	{"NIf", "I", "I(idv(x))", "v.ID()", "iface", true},
+	{"chint", "chan int", "make(chan int, x)", "cap(v)", "chan", false},
+	{"fnint", "func() int", "func() int { return x }", "v()", "func", false},
+}
+
+const typeDecls = `type S struct {
+	A int
+	B string
+}
+
+type NI int
+type NS string
+type NA [2]int
+type NSl []int
+type I interface{ ID() int }
+type idv int
+
+func (i idv) ID() int { return int(i) }
+
+`
+
+// types that cannot carry an id, or are rarely spelled: only their zero literal and
+// well-typedness are observed (package c16zero)
+type exotic struct {
+	typ   string
+	kind  string
+	named bool
+}
+
+var exotics = []exotic{
+	{"bool", "bool", false}, {"NB", "bool", true}, {"uint8", "numeric", false}, {"rune", "numeric", false},
+	{"complex128", "numeric", false}, {"NC", "numeric", true}, {"unsafe.Pointer", "unsafeptr", false},
+	{"NUP", "unsafeptr", true}, {"error", "iface", true}, {"AI", "numeric", true}, {"AS", "struct", true},
+	{"<-chan int", "chan", false}, {"*int", "ptr", false}, {"**S", "ptr", false}, {"NP", "ptr", true},
+	{"[0]int", "array", false}, {"struct{}", "struct", false}, {"NM", "map", true}, {"NF", "func", true},
+	{"[][]S", "slice", false}, {"[1]S", "array", false}, {"NCh", "chan", true}, {"uintptr", "numeric", false},
+	{"NI", "numeric", true}, {"NS", "string", true}, {"string", "string", false},
+}
+
+const exoticDecls = `type S struct {
+	A int
+	B string
+}
+type NI int
+type NS string
+type NB bool
+type NC complex64
+type NUP unsafe.Pointer
+type AI = int
+type AS = S
+type NP *int
+type NM map[int]S
+type NF func(int) S
+type NCh chan S
+
+`
+
+type gen struct {
+	calls, drv, cases strings.Builder
+	ncase             int
+	r                 *hx.Rand
+	rot               int
+	order             []carrier
+	// function name -> carriers of its zeroed results, for the literal extraction
+	zeroSlots map[string][]slot
+	meta      *hx.Meta
+	seen      map[string]bool  // plugin + argument types: goderive wants one name per type tuple
+	composeAr map[string][]int // generated function name -> arity vector, for the translation
+}
+
+// fresh draws types with draw() until the (plugin, key) pair is new; false if 30 draws collide
+func (g *gen) fresh(plugin string, draw func() string) bool {
+	for try := 0; try < 30; try++ {
+		k := plugin + "|" + draw()
+		if !g.seen[k] {
+			g.seen[k] = true
+			return true
+		}
+	}
+	g.meta.Count("skipped-duplicate-signature/" + plugin)
+	return false
+}
+
+type slot struct {
+	typ   string
+	kind  string
+	named bool
+}
+
+func (g *gen) next() carrier {
+	c := g.order[g.rot%len(g.order)]
+	g.rot++
+	if g.rot%len(g.order) == 0 {
+		hx.Shuffle(g.r, g.order)
+	}
+	return c
+}
+
+func (g *gen) nexts(n int) []carrier {
+	l := make([]carrier, n)
+	for i := range l {
+		l[i] = g.next()
+	}
+	return l
+}
+
+func typs(cs []carrier) []string {
+	l := make([]string, len(cs))
+	for i, c := range cs {
+		l[i] = c.typ
+	}
+	return l
+}
+
+func slots(cs []carrier) []slot {
+	l := make([]slot, len(cs))
+	for i, c := range cs {
+		l[i] = slot{c.typ, c.kind, c.named}
+	}
+	return l
+}
+
+// results renders "(T0, T1, last)" / "last"
+func results(ts []string, last string) string {
+	all := append(append([]string{}, ts...), last)
+	if last == "" {
+		all = all[:len(all)-1]
+	}
+	switch len(all) {
+	case 0:
+		return ""
+	case 1:
+		return all[0]
+	}
+	return "(" + strings.Join(all, ", ") + ")"
+}
+
+func params(prefix string, cs []carrier) string {
+	l := make([]string, len(cs))
+	for i, c := range cs {
+		l[i] = fmt.Sprintf("%s%d %s", prefix, i, c.typ)
+	}
+	return strings.Join(l, ", ")
+}
+
+func names(prefix string, n int) []string {
+	l := make([]string, n)
+	for i := range l {
+		l[i] = fmt.Sprintf("%s%d", prefix, i)
+	}
+	return l
+}
+
+// stageFunc renders an instrumented stage: logs (idx, decoded args), returns encoded mix values and `last`
+func stageFunc(idx int, withIdx bool, ins, outs []carrier, last, lastType string) string {
+	var b strings.Builder
+	fmt.Fprintf(&b, "func(%s) %s {\n", params("p", ins), results(typs(outs), lastType))
+	decs := make([]string, len(ins))
+	for i, c := range ins {
+		decs[i] = fmt.Sprintf("dec_%s(p%d)", c.name, i)
+	}
+	fmt.Fprintf(&b, "\t\t\tin := []int{%s}\n", strings.Join(decs, ", "))
+	if withIdx {
+		fmt.Fprintf(&b, "\t\t\tlog = append(log, append([]int{%d}, in...))\n", idx)
+	} else {
+		fmt.Fprintf(&b, "\t\t\tlog = append(log, in)\n")
+	}
+	rets := make([]string, 0, len(outs)+1)
+	for j, c := range outs {
+		rets = append(rets, fmt.Sprintf("enc_%s(mix(%d, %d, in))", c.name, idx, j))
+	}
+	if last != "" {
+		rets = append(rets, last)
+	}
+	if len(rets) > 0 {
+		fmt.Fprintf(&b, "\t\t\treturn %s\n", strings.Join(rets, ", "))
+	}
+	b.WriteString("\t\t}")
+	return b.String()
+}
+
+func obsList(prefix string, cs []carrier) string {
+	l := make([]string, len(cs))
+	for i, c := range cs {
+		l[i] = fmt.Sprintf("obs_%s(%s%d)", c.name, prefix, i)
+	}
+	return "[]int{" + strings.Join(l, ", ") + "}"
+}
+
+func encArgs(cs []carrier) string {
+	l := make([]string, len(cs))
+	for i, c := range cs {
+		l[i] = fmt.Sprintf("enc_%s(args[%d])", c.name, i)
+	}
+	return strings.Join(l, ", ")
+}
+
+func lhs(ns []string, last string) string {
+	all := append(append([]string{}, ns...), last)
+	return strings.Join(all, ", ")
+}
+
+func (g *gen) randArgs(n int) []int {
+	l := make([]int, n)
+	for i := range l {
+		l[i] = 1 + g.r.Intn(90)
+	}
+	return l
+}
+
+// ---- compose ----
+func (g *gen) compose(id int, ar []int) {
+	n := len(ar) - 1
+	sl := make([][]carrier, n+1)
+	if !g.fresh("compose", func() string {
+		k := ""
+		for i := range sl {
+			sl[i] = g.nexts(ar[i])
+			k += strings.Join(typs(sl[i]), ",") + ";"
+		}
+		return k
+	}) {
+		return
+	}
+	fn := fmt.Sprintf("compose_%d", id)
+	dn := fmt.Sprintf("deriveCompose_%d", id)
+	g.zeroSlots[dn] = slots(sl[n])
+	g.composeAr[dn] = ar
+	var ps []string
+	for i := 0; i < n; i++ {
+		ps = append(ps, fmt.Sprintf("f%d func(%s) %s", i, params("a", sl[i]), results(typs(sl[i+1]), "error")))
+	}
+	fmt.Fprintf(&g.calls, "func %s(%s) func(%s) %s {\n\treturn %s(%s)\n}\n", fn, strings.Join(ps, ", "),
+		strings.Join(typs(sl[0]), ", "), results(typs(sl[n]), "error"), dn, strings.Join(names("f", n), ", "))
+	fmt.Fprintf(&g.drv, "\nfunc init() {\n\tcomposeAr[%d] = %s\n\tcomposeT[%d] = func(errs []int, args []int) (res []int, et int, log [][]int) {\n", id, goInts(ar), id)
+	for i := 0; i < n; i++ {
+		fmt.Fprintf(&g.drv, "\t\tf%d := %s\n", i, stageFunc(i, true, sl[i], sl[i+1], fmt.Sprintf("sentinel(errs[%d])", i), "error"))
+	}
+	fmt.Fprintf(&g.drv, "\t\t%s := %s(%s)(%s)\n", lhs(names("r", ar[n]), "err"), fn, strings.Join(names("f", n), ", "), encArgs(sl[0]))
+	fmt.Fprintf(&g.drv, "\t\tres = %s\n\t\tet = tagOf(err)\n\t\treturn\n\t}\n}\n", obsList("r", sl[n]))
+	// cases: no failure; each position x each sentinel; each position with every later stage failing too
+	emit := func(errs []int) {
+		fmt.Fprintf(&g.cases, "compose %d %s %s\n", id, csv(errs), csv(g.randArgs(ar[0])))
+		g.ncase++
+	}
+	emit(make([]int, n))
+	for k := 0; k < n; k++ {
+		for t := 1; t <= 2; t++ {
+			e := make([]int, n)
+			e[k] = t
+			emit(e)
+		}
+		if k < n-1 {
+			e := make([]int, n)
+			t := 1 + (id+k)%2
+			e[k] = t
+			for j := k + 1; j < n; j++ {
+				e[j] = 3 - t
+			}
+			emit(e)
+		}
+	}
+	{
+		// the typed-nil error at a seeded position
+		e := make([]int, n)
+		e[g.r.Intn(n)] = 3
+		emit(e)
+	}
+	g.meta.Count(fmt.Sprintf("compose/stages=%d", n))
+	for _, c := range sl[n] {
+		g.meta.Count("compose/final-kind=" + kindName(c))
+	}
+}
+
+func kindName(c carrier) string {
+	if c.named {
+		return "named-" + c.kind
+	}
+	return c.kind
+}
+
+// deriveTuple is looked up in goderive's name table by types.AssignableTo: once a tuple with an
+// interface{} component exists in a package, a later request for (T, ...) with any T can be
+// answered with that function (depending on Go's map iteration order) and the package does not
+// compile.  That is the name table's defect (C08/C11: typesMap.nameOf), not a property of the
+// emitted chains, so interface{} (and one of every pair of mutually assignable types) is kept
+// out of the tuple positions here; they still occur as results of compose, join, fmap with one
+// result, traverse and toerror.
+func hasEmptyIface(cs []carrier) bool {
+	for _, c := range cs {
+		// NSl/[]int and NA/[2]int are assignable to each other as well
+		if c.name == "iface" || c.name == "NSl" || c.name == "NA" {
+			return true
+		}
+	}
+	return false
+}
+
+// ---- fmap (error forms) ----
+func (g *gen) fmap(id, arity int) {
+	var a carrier
+	var outs []carrier
+	if !g.fresh("fmap", func() string {
+		a = g.next()
+		outs = g.nexts(arity)
+		for arity >= 2 && hasEmptyIface(outs) {
+			outs = g.nexts(arity)
+		}
+		return a.typ + ";" + strings.Join(typs(outs), ",")
+	}) {
+		return
+	}
+	fn := fmt.Sprintf("fmap_%d", id)
+	dn := fmt.Sprintf("deriveFmap_%d", id)
+	var ret string
+	switch arity {
+	case 0:
+		ret = "error"
+	case 1:
+		ret = "(" + outs[0].typ + ", error)"
+		g.zeroSlots[dn] = slots(outs)
+	default:
+		ret = "(func() (" + strings.Join(typs(outs), ", ") + "), error)"
+		g.zeroSlots[dn] = []slot{{"func", "func", false}}
+	}
+	fmt.Fprintf(&g.calls, "func %s(f func(%s) %s, g func() (%s, error)) %s {\n\treturn %s(f, g)\n}\n",
+		fn, a.typ, results(typs(outs), ""), a.typ, ret, dn)
+	fmt.Fprintf(&g.drv, "\nfunc init() {\n\tfmapAr[%d] = %d\n\tfmapT[%d] = func(gerr, gval int) (res string, et int, log [][]int) {\n", id, arity, id)
+	fmt.Fprintf(&g.drv, "\t\tg := func() (%s, error) {\n\t\t\tlog = append(log, []int{0})\n\t\t\treturn enc_%s(gval), sentinel(gerr)\n\t\t}\n", a.typ, a.name)
+	fmt.Fprintf(&g.drv, "\t\tf := %s\n", stageFunc(1, true, []carrier{a}, outs, "", ""))
+	switch arity {
+	case 0:
+		fmt.Fprintf(&g.drv, "\t\terr := %s(f, g)\n\t\tres = \"()\"\n", fn)
+	case 1:
+		fmt.Fprintf(&g.drv, "\t\tr0, err := %s(f, g)\n\t\tres = ints(%s)\n", fn, obsList("r", outs))
+	default:
+		fmt.Fprintf(&g.drv, "\t\tth, err := %s(f, g)\n\t\tif th == nil {\n\t\t\tres = \"nil\"\n\t\t} else {\n", fn)
+		fmt.Fprintf(&g.drv, "\t\t\t%s := th()\n\t\t\t%s := th()\n", strings.Join(names("r", arity), ", "), strings.Join(names("s", arity), ", "))
+		fmt.Fprintf(&g.drv, "\t\t\tres = \"(tuple \" + ints(%s) + \" \" + ints(%s) + \")\"\n\t\t}\n", obsList("r", outs), obsList("s", outs))
+	}
+	fmt.Fprintf(&g.drv, "\t\tet = tagOf(err)\n\t\treturn\n\t}\n}\n")
+	for _, ge := range []int{0, 1, 2, 3} {
+		fmt.Fprintf(&g.cases, "fmap %d %d %d\n", id, ge, 1+g.r.Intn(90))
+		g.ncase++
+	}
+	g.meta.Count(fmt.Sprintf("fmap/arity=%d", arity))
+}
+
+// deriveJoin(deriveFmap(f, g)) with f : A -> (C, error)
+func (g *gen) bind(id int) {
+	var a, c carrier
+	if !g.fresh("join", func() string {
+		a, c = g.next(), g.next()
+		for hasEmptyIface([]carrier{c}) {
+			c = g.next()
+		}
+		return c.typ
+	}) {
+		return
+	}
+	g.seen["fmap|"+a.typ+";"+c.typ+",error"] = true
+	fn := fmt.Sprintf("bind_%d", id)
+	g.zeroSlots[fmt.Sprintf("deriveJoin_b%d", id)] = slots([]carrier{c})
+	g.zeroSlots[fmt.Sprintf("deriveFmap_b%d", id)] = []slot{{"func", "func", false}}
+	fmt.Fprintf(&g.calls, "func %s(f func(%s) (%s, error), g func() (%s, error)) (%s, error) {\n\treturn deriveJoin_b%d(deriveFmap_b%d(f, g))\n}\n",
+		fn, a.typ, c.typ, a.typ, c.typ, id, id)
+	fmt.Fprintf(&g.drv, "\nfunc init() {\n\tbindT[%d] = func(gerr, gval, ferr int) (res []int, et int, log [][]int) {\n", id)
+	fmt.Fprintf(&g.drv, "\t\tg := func() (%s, error) {\n\t\t\tlog = append(log, []int{0})\n\t\t\treturn enc_%s(gval), sentinel(gerr)\n\t\t}\n", a.typ, a.name)
+	fmt.Fprintf(&g.drv, "\t\tf := %s\n", stageFunc(1, true, []carrier{a}, []carrier{c}, "sentinel(ferr)", "error"))
+	fmt.Fprintf(&g.drv, "\t\tr0, err := %s(f, g)\n\t\tres = %s\n\t\tet = tagOf(err)\n\t\treturn\n\t}\n}\n", fn, obsList("r", []carrier{c}))
+	for _, ge := range []int{0, 1, 2, 3} {
+		for _, fe := range []int{0, 1, 2, 3} {
+			if ge != 0 && fe == ge {
+				continue
+			}
+			fmt.Fprintf(&g.cases, "bind %d %d %d %d\n", id, ge, 1+g.r.Intn(90), fe)
+			g.ncase++
+		}
+	}
+	g.meta.Count("bind")
+}
+
+// ---- join (error form) ----
+func (g *gen) join(id, n int) {
+	var outs []carrier
+	if !g.fresh("join", func() string {
+		outs = g.nexts(n)
+		return strings.Join(typs(outs), ",")
+	}) {
+		return
+	}
+	fn := fmt.Sprintf("join_%d", id)
+	dn := fmt.Sprintf("deriveJoin_%d", id)
+	if n > 0 {
+		g.zeroSlots[dn] = slots(outs)
+	}
+	rt := results(typs(outs), "error")
+	fmt.Fprintf(&g.calls, "func %s(f func() %s, err error) %s {\n\treturn %s(f, err)\n}\n", fn, rt, rt, dn)
+	fmt.Fprintf(&g.drv, "\nfunc init() {\n\tjoinAr[%d] = %d\n\tjoinT[%d] = func(e, ferr, conv int) (res []int, et int, log [][]int) {\n", id, n, id)
+	fmt.Fprintf(&g.drv, "\t\tf := func() %s {\n\t\t\tlog = append(log, []int{0})\n", rt)
+	if n > 0 {
+		fmt.Fprintf(&g.drv, "\t\t\tif conv != 0 && ferr != 0 {\n")
+		for i, c := range outs {
+			fmt.Fprintf(&g.drv, "\t\t\t\tvar z%d %s\n", i, c.typ)
+		}
+		fmt.Fprintf(&g.drv, "\t\t\t\treturn %s\n\t\t\t}\n", lhs(names("z", n), "sentinel(ferr)"))
+	}
+	rets := []string{}
+	for j, c := range outs {
+		rets = append(rets, fmt.Sprintf("enc_%s(mix(0, %d, nil))", c.name, j))
+	}
+	rets = append(rets, "sentinel(ferr)")
+	fmt.Fprintf(&g.drv, "\t\t\treturn %s\n\t\t}\n", strings.Join(rets, ", "))
+	fmt.Fprintf(&g.drv, "\t\t%s := %s(f, sentinel(e))\n\t\tres = %s\n\t\tet = tagOf(err)\n\t\treturn\n\t}\n}\n", lhs(names("r", n), "err"), fn, obsList("r", outs))
+	for _, e := range []int{0, 1, 2, 3} {
+		for _, fe := range []int{0, 1, 2, 3} {
+			for conv := 0; conv <= 1; conv++ {
+				if conv == 1 && (fe == 0 || n == 0) {
+					continue
+				}
+				if e != 0 && fe == e {
+					continue
+				}
+				fmt.Fprintf(&g.cases, "join %d %d %d %d\n", id, e, fe, conv)
+				g.ncase++
+			}
+		}
+	}
+	g.meta.Count(fmt.Sprintf("join/results=%d", n))
+}
+
+// ---- traverse ----
+func (g *gen) traverse(id int, maxLen int) {
+	var a, b carrier
+	if !g.fresh("traverse", func() string {
+		a, b = g.next(), g.next()
+		return a.typ + ";" + b.typ
+	}) {
+		return
+	}
+	fn := fmt.Sprintf("trav_%d", id)
+	fmt.Fprintf(&g.calls, "func %s(f func(%s) (%s, error), l []%s) ([]%s, error) {\n\treturn deriveTraverse_%d(f, l)\n}\n",
+		fn, a.typ, b.typ, a.typ, b.typ, id)
+	fmt.Fprintf(&g.drv, "\nfunc init() {\n\ttravT[%d] = func(ids []int, isNil bool, tbl map[int]int) (res string, et int, log []int) {\n", id)
+	fmt.Fprintf(&g.drv, "\t\tvar in []%s\n\t\tif !isNil {\n\t\t\tin = make([]%s, 0, len(ids))\n\t\t}\n\t\tfor _, x := range ids {\n\t\t\tin = append(in, enc_%s(x))\n\t\t}\n", a.typ, a.typ, a.name)
+	fmt.Fprintf(&g.drv, "\t\tf := func(p %s) (%s, error) {\n\t\t\tx := dec_%s(p)\n\t\t\tlog = append(log, x)\n\t\t\treturn enc_%s(mix(0, 0, []int{x})), sentinel(tbl[x])\n\t\t}\n", a.typ, b.typ, a.name, b.name)
+	fmt.Fprintf(&g.drv, "\t\tout, err := %s(f, in)\n\t\tet = tagOf(err)\n", fn)
+	fmt.Fprintf(&g.drv, "\t\tswitch {\n\t\tcase err == nil && len(out) == 0:\n\t\t\tres = \"()\"\n\t\tcase out == nil:\n\t\t\tres = \"nil\"\n\t\tdefault:\n\t\t\tl := make([]int, len(out))\n\t\t\tfor i, v := range out {\n\t\t\t\tl[i] = obs_%s(v)\n\t\t\t}\n\t\t\tres = ints(l)\n\t\t}\n\t\treturn\n\t}\n}\n", b.name)
+	emit := func(ids []int, isNil bool, tbl [][2]int) {
+		ts := make([]string, len(tbl))
+		for i, p := range tbl {
+			ts[i] = fmt.Sprintf("%d:%d", p[0], p[1])
+		}
+		nl := "list"
+		if isNil {
+			nl = "nil"
+		}
+		fmt.Fprintf(&g.cases, "traverse %d %s %s %s\n", id, nl, csv(ids), strings.Join(ts, ","))
+		g.ncase++
+	}
+	emit(nil, true, nil)
+	for n := 0; n <= maxLen; n++ {
+		// distinct ids
+		perm := make([]int, 90)
+		for i := range perm {
+			perm[i] = i + 1
+		}
+		hx.Shuffle(g.r, perm)
+		ids := perm[:n]
+		emit(ids, false, nil)
+		for k := 0; k < n; k++ {
+			t := 1 + (k+n)%2
+			emit(ids, false, [][2]int{{ids[k], t}})
+			if k < n-1 {
+				// a later element fails too, with the other error
+				emit(ids, false, [][2]int{{ids[k], t}, {ids[n-1], 3 - t}})
+			}
+		}
+		if n >= 1 {
+			emit(ids, false, [][2]int{{ids[n/2], 3}})
+		}
+		if n >= 3 {
+			// a repeated element that fails: the first occurrence stops the loop
+			d := append([]int{}, ids...)
+			d[n-1] = d[1]
+			emit(d, false, [][2]int{{d[1], 2}})
+		}
+	}
+	g.meta.Count("traverse/instances")
+}
+
+// ---- toerror ----
+func (g *gen) toerror(id, np, nout int) {
+	var ins, outs []carrier
+	if !g.fresh("toerror", func() string {
+		ins = g.nexts(np)
+		outs = g.nexts(nout)
+		return strings.Join(typs(ins), ",") + ";" + strings.Join(typs(outs), ",")
+	}) {
+		return
+	}
+	fn := fmt.Sprintf("toerr_%d", id)
+	fmt.Fprintf(&g.calls, "func %s(e error, f func(%s) %s) func(%s) %s {\n\treturn deriveToError_%d(e, f)\n}\n",
+		fn, params("a", ins), results(typs(outs), "bool"), strings.Join(typs(ins), ", "), results(typs(outs), "error"), id)
+	fmt.Fprintf(&g.drv, "\nfunc init() {\n\ttoerrAr[%d] = [2]int{%d, %d}\n\ttoerrT[%d] = func(args []int, success bool, etag int) (res []int, et int, log [][]int) {\n", id, np, nout, id)
+	fmt.Fprintf(&g.drv, "\t\tf := %s\n", stageFunc(0, false, ins, outs, "success", "bool"))
+	fmt.Fprintf(&g.drv, "\t\t%s := %s(sentinel(etag), f)(%s)\n\t\tres = %s\n\t\tet = tagOf(err)\n\t\treturn\n\t}\n}\n",
+		lhs(names("r", nout), "err"), fn, encArgs(ins), obsList("r", outs))
+	for _, sc := range []int{1, 0} {
+		for _, t := range []int{1, 2, 3, 0} {
+			fmt.Fprintf(&g.cases, "toerror %d %s %d %d\n", id, csv(g.randArgs(np)), sc, t)
+			g.ncase++
+		}
+	}
+	g.meta.Count(fmt.Sprintf("toerror/params=%d,outs=%d", np, nout))
+}
+
+func csv(l []int) string {
+	if len(l) == 0 {
+		return "-"
+	}
+	s := make([]string, len(l))
+	for i, x := range l {
+		s[i] = fmt.Sprint(x)
+	}
+	return strings.Join(s, ",")
+}
+
+func goInts(l []int) string {
+	s := make([]string, len(l))
+	for i, x := range l {
+		s[i] = fmt.Sprint(x)
+	}
+	return "[]int{" + strings.Join(s, ", ") + "}"
+}
+
+// arity vectors of length n over 0..max
+func arityVectors(n, max int) [][]int {
+	if n == 0 {
+		return [][]int{{}}
+	}
+	var out [][]int
+	for _, v := range arityVectors(n-1, max) {
+		for a := 0; a <= max; a++ {
+			out = append(out, append(append([]int{}, v...), a))
+		}
+	}
+	return out
+}
+
 func Run(cfg hx.Config) (*hx.Meta, error) {
-	return nil, fmt.Errorf("C16: harness not built yet")
+	meta := &hx.Meta{Property: "C16", Seed: cfg.Seed, Tier: cfg.Tier}
+	thorough := cfg.Tier == "thorough"
+
+	// ---- regression corpus first: packages that once failed (must generate and vet) ----
+	if err := runCorpus(cfg, meta); err != nil {
+		return nil, err
+	}
+
+	g := &gen{r: hx.NewRand(cfg.Seed), zeroSlots: map[string][]slot{}, meta: meta, seen: map[string]bool{}, composeAr: map[string][]int{}}
+	g.order = append([]carrier{}, carriers...)
+	hx.Shuffle(g.r, g.order)
+	g.calls.WriteString("package main\n\n" + typeDecls)
+	g.drv.WriteString(driverHeader)
+	for _, c := range carriers {
+		fmt.Fprintf(&g.drv, "func enc_%s(x int) %s { return %s }\nfunc dec_%s(v %s) int { return %s }\nfunc obs_%s(v %s) int {\n\tif isZero(&v) {\n\t\treturn 0\n\t}\n\treturn dec_%s(v)\n}\n",
+			c.name, c.typ, c.enc, c.name, c.typ, c.dec, c.name, c.typ, c.name)
+	}
+
+	id := 0
+	// all chains of 2..3 (thorough: 4) stages with 0..3 parameters / intermediate / final results
+	maxStages, reps := 3, 1
+	if thorough {
+		maxStages, reps = 4, 3
+	}
+	for n := 2; n <= maxStages; n++ {
+		vs := arityVectors(n+1, 3)
+		rr := reps
+		if n == 4 {
+			rr = 2
+		}
+		for rep := 0; rep < rr; rep++ {
+			for _, ar := range vs {
+				g.compose(id, ar)
+				id++
+			}
+		}
+	}
+	if !thorough {
+		// a seeded sample of the 1024 four-stage shapes (thorough has them all)
+		vs := arityVectors(5, 3)
+		hx.Shuffle(g.r, vs)
+		for _, ar := range vs[:48] {
+			g.compose(id, ar)
+			id++
+		}
+	} else {
+		// beyond the quantifier (the theorem is for every length): a sample of five- and six-stage chains
+		for _, n := range []int{5, 6} {
+			vs := arityVectors(n+1, 3)
+			hx.Shuffle(g.r, vs)
+			for _, ar := range vs[:128] {
+				g.compose(id, ar)
+				id++
+			}
+		}
+	}
+	ncomp := id
+	nf := 3
+	if thorough {
+		nf = 12
+	}
+	for k := 0; k < nf; k++ {
+		for arity := 0; arity <= 3; arity++ {
+			g.fmap(id, arity)
+			id++
+		}
+		for n := 0; n <= 3; n++ {
+			g.join(id, n)
+			id++
+		}
+		g.bind(id)
+		id++
+		g.bind(id)
+		id++
+	}
+	ntrav, maxLen := 17, 5
+	if thorough {
+		ntrav, maxLen = 68, 9
+	}
+	for k := 0; k < ntrav; k++ {
+		g.traverse(id, maxLen)
+		id++
+	}
+	nte := 1
+	if thorough {
+		nte = 4
+	}
+	for k := 0; k < nte; k++ {
+		for np := 0; np <= 2; np++ {
+			for nout := 0; nout <= 3; nout++ {
+				g.toerror(id, np, nout)
+				id++
+			}
+		}
+	}
+	meta.Count(fmt.Sprintf("instances=%d (compose %d)", id, ncomp))
+
+	dir := filepath.Join(cfg.Work, "c16pkg")
+	if err := hx.Module(dir); err != nil {
+		return nil, err
+	}
+	files := map[string]string{"calls.go": g.calls.String(), "driver.go": g.drv.String(), "cases.txt": g.cases.String()}
+	if err := hx.WriteFiles(dir, files); err != nil {
+		return nil, err
+	}
+	meta.Packages++
+	gr := hx.Goderive(cfg.Goderive, dir, ".")
+	meta.GoderiveRuns++
+	_ = os.WriteFile(filepath.Join(cfg.Out, "c16.calls.go"), []byte(files["calls.go"]), 0o644)
+	if gr.Exit != 0 {
+		meta.AddDirect(hx.Direct{Class: "c16-generate-failed", What: "goderive failed on the C16 package",
+			Files: map[string]string{"calls.go": hx.Truncate(files["calls.go"], 20000)}, Cmd: "goderive .", Output: hx.Truncate(gr.Out, 4000)})
+		return meta, nil
+	}
+	genSrc, _ := os.ReadFile(filepath.Join(dir, "derived.gen.go"))
+	_ = os.WriteFile(filepath.Join(cfg.Out, "c16.derived.gen.go"), genSrc, 0o644)
+
+	var obs strings.Builder
+	// the exotic-type package: zero literals + vet only
+	zeroObs, err := zeroPackage(cfg, meta)
+	if err != nil {
+		return nil, err
+	}
+	lits := extractZeros(string(genSrc), g.zeroSlots, meta)
+	all := append(zeroObs, lits...)
+	all = append(all, translateCompose(string(genSrc), g.composeAr, meta)...)
+	sort.Strings(all)
+	prev := ""
+	for _, l := range all {
+		if l != prev {
+			obs.WriteString(l + "\n")
+			g.ncase++
+		}
+		prev = l
+	}
+
+	b := hx.GoBuild(dir, filepath.Join(dir, "drv"), "drv")
+	if b.Exit != 0 {
+		meta.AddDirect(hx.Direct{Class: "c16-build-failed", What: "the package generated for C16 does not compile: " + firstLines(b.Out, 3),
+			Files: map[string]string{"calls.go": hx.Truncate(files["calls.go"], 20000), "derived.gen.go": hx.Truncate(string(genSrc), 20000)},
+			Cmd:   "goderive . && go build -tags drv", Output: hx.Truncate(b.Out, 4000)})
+	} else {
+		res := hx.Run(dir, 300e9, 4000000, nil, filepath.Join(dir, "drv"), "cases.txt")
+		if res.Exit != 0 {
+			meta.AddDirect(hx.Direct{Class: "c16-driver-failed", What: "driver crashed", Cmd: "./drv cases.txt", Output: hx.Truncate(res.Out, 4000)})
+			return meta, nil
+		}
+		obs.WriteString(res.Stdout)
+		seen := map[string]bool{}
+		for _, l := range strings.Split(res.Stdout, "\n") {
+			k := strings.SplitN(l, " ", 2)[0]
+			min := 30
+			switch k {
+			case "(compose":
+				min = 70
+			case "(traverse", "(toerror":
+				min = 44
+			}
+			if len(l) > min && !seen[k] && !strings.Contains(l, ") 0 (") {
+				seen[k] = true
+				meta.Sample(hx.Truncate(l, 220))
+			}
+		}
+	}
+	of := filepath.Join(cfg.Out, "c16.obs")
+	if err := os.WriteFile(of, []byte(obs.String()), 0o644); err != nil {
+		return nil, err
+	}
+	meta.ObsFiles = append(meta.ObsFiles, of)
+	meta.Cases = g.ncase
+	return meta, nil
+}
+
+func firstLines(s string, n int) string {
+	l := strings.Split(strings.TrimSpace(s), "\n")
+	if len(l) > n {
+		l = l[:n]
+	}
+	return strings.Join(l, " | ")
+}
+
+// ---- corpus: each corpus/C16/*.go.txt is the single source file of a package main ----
+func runCorpus(cfg hx.Config, meta *hx.Meta) error {
+	ents, _ := filepath.Glob(filepath.Join(cfg.Corpus, "*.go.txt"))
+	sort.Strings(ents)
+	for i, e := range ents {
+		src, err := os.ReadFile(e)
+		if err != nil {
+			return err
+		}
+		dir := filepath.Join(cfg.Work, fmt.Sprintf("corpus%d", i))
+		if err := hx.Module(dir); err != nil {
+			return err
+		}
+		if err := hx.WriteFiles(dir, map[string]string{"a.go": string(src)}); err != nil {
+			return err
+		}
+		meta.Packages++
+		meta.GoderiveRuns++
+		meta.Count("corpus")
+		gr := hx.Goderive(cfg.Goderive, dir, ".")
+		if gr.Exit != 0 {
+			meta.AddDirect(hx.Direct{Class: "c16-corpus-generate-failed", What: "goderive failed on corpus entry " + filepath.Base(e),
+				Files: map[string]string{"a.go": string(src)}, Cmd: "goderive .", Output: hx.Truncate(gr.Out, 4000)})
+			continue
+		}
+		v := hx.GoVet(dir, "")
+		if v.Exit != 0 {
+			genSrc, _ := os.ReadFile(filepath.Join(dir, "derived.gen.go"))
+			meta.AddDirect(hx.Direct{Class: "c16-zero-ill-typed", What: "corpus entry " + filepath.Base(e) + ": generated code does not type-check: " + firstLines(v.Out, 3),
+				Files: map[string]string{"a.go": string(src), "derived.gen.go": hx.Truncate(string(genSrc), 20000)}, Cmd: "goderive . && go vet .", Output: hx.Truncate(v.Out, 4000)})
+		}
+	}
+	return nil
+}
+
+// ---- exotic result types: generate, vet, read the literals ----
+func zeroPackage(cfg hx.Config, meta *hx.Meta) ([]string, error) {
+	dir := filepath.Join(cfg.Work, "c16zero")
+	if err := hx.Module(dir); err != nil {
+		return nil, err
+	}
+	var b strings.Builder
+	b.WriteString("package main\n\nimport \"unsafe\"\n\n" + exoticDecls)
+	zs := map[string][]slot{}
+	// three results per function, so that every exotic type occurs in compose, join and fmap
+	for i := 0; i < len(exotics); i += 3 {
+		var grp []exotic
+		for j := i; j < i+3 && j < len(exotics); j++ {
+			grp = append(grp, exotics[j])
+		}
+		ts := make([]string, len(grp))
+		sl := make([]slot, len(grp))
+		for j, e := range grp {
+			ts[j] = e.typ
+			sl[j] = slot{e.typ, e.kind, e.named}
+		}
+		rt := "(" + strings.Join(ts, ", ") + ", error)"
+		fmt.Fprintf(&b, "func zc_%d(f0 func(a int) (int, error), f1 func(a int) %s) func(int) %s {\n\treturn deriveCompose_z%d(f0, f1)\n}\n", i, rt, rt, i)
+		zs[fmt.Sprintf("deriveCompose_z%d", i)] = sl
+		fmt.Fprintf(&b, "func zj_%d(f func() %s, err error) %s {\n\treturn deriveJoin_z%d(f, err)\n}\n", i, rt, rt, i)
+		zs[fmt.Sprintf("deriveJoin_z%d", i)] = sl
+		for j, e := range grp {
+			fmt.Fprintf(&b, "func zf_%d(f func(int) %s, g func() (int, error)) (%s, error) {\n\treturn deriveFmap_z%d(f, g)\n}\n", i+j, e.typ, e.typ, i+j)
+			zs[fmt.Sprintf("deriveFmap_z%d", i+j)] = []slot{sl[j]}
+		}
+	}
+	b.WriteString("\nvar _ = unsafe.Sizeof(0)\n\nfunc main() {}\n")
+	if err := hx.WriteFiles(dir, map[string]string{"z.go": b.String()}); err != nil {
+		return nil, err
+	}
+	meta.Packages++
+	meta.GoderiveRuns++
+	gr := hx.Goderive(cfg.Goderive, dir, ".")
+	if gr.Exit != 0 {
+		meta.AddDirect(hx.Direct{Class: "c16-generate-failed", What: "goderive failed on the C16 zero-value package",
+			Files: map[string]string{"z.go": b.String()}, Cmd: "goderive .", Output: hx.Truncate(gr.Out, 4000)})
+		return nil, nil
+	}
+	genSrc, _ := os.ReadFile(filepath.Join(dir, "derived.gen.go"))
+	_ = os.WriteFile(filepath.Join(cfg.Out, "c16.zero.derived.gen.go"), genSrc, 0o644)
+	lines := extractZeros(string(genSrc), zs, meta)
+	v := hx.GoVet(dir, "")
+	if v.Exit != 0 {
+		meta.AddDirect(hx.Direct{Class: "c16-zero-ill-typed", What: "zero values written for exotic result types do not type-check: " + firstLines(v.Out, 3),
+			Files: map[string]string{"z.go": b.String(), "derived.gen.go": hx.Truncate(string(genSrc), 20000)}, Cmd: "goderive . && go vet .", Output: hx.Truncate(v.Out, 4000)})
+	}
+	for _, e := range exotics {
+		k := e.kind
+		if e.named {
+			k = "named-" + k
+		}
+		meta.Count("zero-package/kind=" + k)
+	}
+	return lines, nil
+}
+
+// extractZeros finds, in every listed generated function, the first `if err.. != nil { return Z..., err }`
+// and classifies the literals Z against the result types the harness asked for.
+func extractZeros(src string, want map[string][]slot, meta *hx.Meta) []string {
+	fset := token.NewFileSet()
+	f, err := parser.ParseFile(fset, "derived.gen.go", src, 0)
+	if err != nil {
+		meta.AddDirect(hx.Direct{Class: "c16-unparsable", What: "derived.gen.go does not parse", Output: err.Error()})
+		return nil
+	}
+	var out []string
+	found := map[string]bool{}
+	for _, d := range f.Decls {
+		fd, ok := d.(*ast.FuncDecl)
+		if !ok || fd.Body == nil {
+			continue
+		}
+		sl, ok := want[fd.Name.Name]
+		if !ok {
+			continue
+		}
+		found[fd.Name.Name] = true
+		var ret *ast.ReturnStmt
+		ast.Inspect(fd.Body, func(n ast.Node) bool {
+			if ret != nil {
+				return false
+			}
+			if is, ok := n.(*ast.IfStmt); ok {
+				for _, st := range is.Body.List {
+					if r, ok := st.(*ast.ReturnStmt); ok {
+						ret = r
+						return false
+					}
+				}
+			}
+			return true
+		})
+		if ret == nil || len(ret.Results) != len(sl)+1 {
+			// the shape of the function changed: nothing to read; the behavioural run decides
+			meta.Notes = append(meta.Notes, "zero literals of "+fd.Name.Name+" not found in the expected place")
+			continue
+		}
+		for i, s := range sl {
+			lit := "other"
+			switch e := ret.Results[i].(type) {
+			case *ast.Ident:
+				if e.Name == "nil" || e.Name == "false" {
+					lit = e.Name
+				}
+			case *ast.BasicLit:
+				if e.Kind == token.INT && e.Value == "0" {
+					lit = "zero"
+				}
+				if e.Kind == token.STRING && (e.Value == `""` || e.Value == "``") {
+					lit = "empty"
+				}
+			case *ast.CompositeLit:
+				var tb strings.Builder
+				printer.Fprint(&tb, fset, e.Type)
+				if len(e.Elts) == 0 && squash(tb.String()) == squash(s.typ) {
+					lit = "composite"
+				}
+			}
+			nm := 0
+			if s.named {
+				nm = 1
+			}
+			out = append(out, fmt.Sprintf("(zero %s %d %s)", s.kind, nm, lit))
+		}
+	}
+	for name := range want {
+		if !found[name] {
+			meta.Notes = append(meta.Notes, "function "+name+" not generated")
+		}
+	}
+	return out
+}
+
+func squash(s string) string {
+	return strings.Join(strings.Fields(s), "")
+}
+
+const driverHeader = `//go:build drv
+
+package main
+
+import (
+	"bufio"
+	"errors"
+	"fmt"
+	"os"
+	"reflect"
+	"strconv"
+	"strings"
+)
+
+var errA = errors.New("boom")
+var errB = errors.New("boom")
+
+// a non-nil error value holding a nil pointer: err != nil is true for it
+type perr struct{}
+
+func (*perr) Error() string { return "boom" }
+
+var errC error = (*perr)(nil)
+
+func sentinel(t int) error {
+	switch t {
+	case 1:
+		return errA
+	case 2:
+		return errB
+	case 3:
+		return errC
+	}
+	return nil
+}
+
+func tagOf(err error) int {
+	switch {
+	case err == nil:
+		return 0
+	case err == errA:
+		return 1
+	case err == errB:
+		return 2
+	case err == errC:
+		return 3
+	}
+	return 9
+}
+
+func mix(i, j int, in []int) int {
+	w := 0
+	for k, x := range in {
+		w += (k + 1) * x
+	}
+	return 1 + (31*i+7*j+3*w)%97
+}
+
+func isZero(p interface{}) bool { return reflect.ValueOf(p).Elem().IsZero() }
+func atoi(s string) int        { n, _ := strconv.Atoi(s); return n }
+
+var composeT = map[int]func(errs []int, args []int) (res []int, et int, log [][]int){}
+var composeAr = map[int][]int{}
+var fmapT = map[int]func(gerr, gval int) (res string, et int, log [][]int){}
+var fmapAr = map[int]int{}
+var bindT = map[int]func(gerr, gval, ferr int) (res []int, et int, log [][]int){}
+var joinT = map[int]func(e, ferr, conv int) (res []int, et int, log [][]int){}
+var joinAr = map[int]int{}
+var travT = map[int]func(ids []int, isNil bool, tbl map[int]int) (res string, et int, log []int){}
+var toerrT = map[int]func(args []int, success bool, etag int) (res []int, et int, log [][]int){}
+var toerrAr = map[int][2]int{}
+
+func ints(l []int) string {
+	var b strings.Builder
+	b.WriteByte('(')
+	for i, x := range l {
+		if i > 0 {
+			b.WriteByte(' ')
+		}
+		b.WriteString(strconv.Itoa(x))
+	}
+	b.WriteByte(')')
+	return b.String()
+}
+
+func intss(l [][]int) string {
+	s := make([]string, len(l))
+	for i, x := range l {
+		s[i] = ints(x)
+	}
+	return "(" + strings.Join(s, " ") + ")"
+}
+
+func parseCSV(s string) []int {
+	if s == "-" || s == "" {
+		return []int{}
+	}
+	var out []int
+	for _, f := range strings.Split(s, ",") {
+		out = append(out, atoi(f))
+	}
+	return out
+}
+
+func main() {
+	f, err := os.Open(os.Args[1])
+	if err != nil {
+		panic(err)
+	}
+	sc := bufio.NewScanner(f)
+	sc.Buffer(make([]byte, 1<<20), 1<<24)
+	w := bufio.NewWriter(os.Stdout)
+	defer w.Flush()
+	for sc.Scan() {
+		p := strings.Fields(sc.Text())
+		if len(p) < 2 {
+			continue
+		}
+		id := atoi(p[1])
+		var head string
+		func() {
+			defer func() {
+				if r := recover(); r != nil {
+					fmt.Fprintf(w, "(%s panic)\n", head)
+				}
+			}()
+			switch p[0] {
+			case "compose":
+				errs, args := parseCSV(p[2]), parseCSV(p[3])
+				head = fmt.Sprintf("compose %s %s %s", ints(composeAr[id]), ints(errs), ints(args))
+				res, et, log := composeT[id](errs, args)
+				fmt.Fprintf(w, "(%s (ret %s %d %s))\n", head, ints(res), et, intss(log))
+			case "fmap":
+				gerr, gval := atoi(p[2]), atoi(p[3])
+				head = fmt.Sprintf("fmap %d %d %d", fmapAr[id], gerr, gval)
+				res, et, log := fmapT[id](gerr, gval)
+				fmt.Fprintf(w, "(%s (ret %s %d %s))\n", head, res, et, intss(log))
+			case "bind":
+				gerr, gval, ferr := atoi(p[2]), atoi(p[3]), atoi(p[4])
+				head = fmt.Sprintf("bind %d %d %d", gerr, gval, ferr)
+				res, et, log := bindT[id](gerr, gval, ferr)
+				fmt.Fprintf(w, "(%s (ret %s %d %s))\n", head, ints(res), et, intss(log))
+			case "join":
+				e, ferr, conv := atoi(p[2]), atoi(p[3]), atoi(p[4])
+				head = fmt.Sprintf("join %d %d %d %d", joinAr[id], e, ferr, conv)
+				res, et, log := joinT[id](e, ferr, conv)
+				fmt.Fprintf(w, "(%s (ret %s %d %s))\n", head, ints(res), et, intss(log))
+			case "traverse":
+				ids := parseCSV(p[3])
+				tbl := map[int]int{}
+				var tb []string
+				if len(p) > 4 {
+					for _, kv := range strings.Split(p[4], ",") {
+						q := strings.Split(kv, ":")
+						tbl[atoi(q[0])] = atoi(q[1])
+						tb = append(tb, "("+q[0]+" "+q[1]+")")
+					}
+				}
+				head = fmt.Sprintf("traverse %s (%s)", ints(ids), strings.Join(tb, " "))
+				res, et, log := travT[id](ids, p[2] == "nil", tbl)
+				fmt.Fprintf(w, "(%s (ret %s %d %s))\n", head, res, et, ints(log))
+			case "toerror":
+				args, sc, t := parseCSV(p[2]), atoi(p[3]), atoi(p[4])
+				head = fmt.Sprintf("toerror %d %s %d %d", toerrAr[id][1], ints(args), sc, t)
+				res, et, log := toerrT[id](args, sc != 0, t)
+				fmt.Fprintf(w, "(%s (ret %s %d %s))\n", head, ints(res), et, intss(log))
+			}
+		}()
+	}
+}
+
+`
+
+// translateCompose turns the body of every generated deriveCompose into the statement IR of
+// coq/theories/Chain/ComposeIR.v.  Variables are numbered by their place of definition
+// (parameter j of the returned func = (0, j); value j defined by the k-th call = (k+1, j); the
+// error variable of the k-th call = k), so the names chosen by the generator do not matter.
+// A function whose text is outside the IR (another statement form) is only counted.
+func translateCompose(src string, want map[string][]int, meta *hx.Meta) []string {
+	fset := token.NewFileSet()
+	f, err := parser.ParseFile(fset, "derived.gen.go", src, 0)
+	if err != nil {
+		return nil
+	}
+	var out []string
+	for _, d := range f.Decls {
+		fd, ok := d.(*ast.FuncDecl)
+		if !ok || fd.Body == nil {
+			continue
+		}
+		ar, ok := want[fd.Name.Name]
+		if !ok {
+			continue
+		}
+		ir, ok := translateOne(fd)
+		if !ok {
+			meta.Count("compose-text/outside-the-IR")
+			continue
+		}
+		out = append(out, fmt.Sprintf("(ir %s (%s))", hx.Ints(ar), strings.Join(ir, " ")))
+		meta.Count("compose-text/translated")
+	}
+	return out
+}
+
+func translateOne(fd *ast.FuncDecl) ([]string, bool) {
+	fns := map[string]int{}
+	k := 0
+	for _, fl := range fd.Type.Params.List {
+		for _, nm := range fl.Names {
+			fns[nm.Name] = k
+			k++
+		}
+	}
+	if len(fd.Body.List) != 1 {
+		return nil, false
+	}
+	rs, ok := fd.Body.List[0].(*ast.ReturnStmt)
+	if !ok || len(rs.Results) != 1 {
+		return nil, false
+	}
+	lit, ok := rs.Results[0].(*ast.FuncLit)
+	if !ok {
+		return nil, false
+	}
+	vals := map[string][2]int{}
+	errs := map[string]int{}
+	j := 0
+	if lit.Type.Params != nil {
+		for _, fl := range lit.Type.Params.List {
+			for _, nm := range fl.Names {
+				vals[nm.Name] = [2]int{0, j}
+				j++
+			}
+		}
+	}
+	refs := func(es []ast.Expr) (string, bool) {
+		var l []string
+		for _, e := range es {
+			id, ok := e.(*ast.Ident)
+			if !ok {
+				return "", false
+			}
+			v, ok := vals[id.Name]
+			if !ok {
+				return "", false
+			}
+			l = append(l, fmt.Sprintf("(%d %d)", v[0], v[1]))
+		}
+		return "(" + strings.Join(l, " ") + ")", true
+	}
+	var ir []string
+	calls := 0
+	for _, st := range lit.Body.List {
+		switch s := st.(type) {
+		case *ast.AssignStmt:
+			if s.Tok != token.DEFINE || len(s.Rhs) != 1 || len(s.Lhs) == 0 {
+				return nil, false
+			}
+			ce, ok := s.Rhs[0].(*ast.CallExpr)
+			if !ok {
+				return nil, false
+			}
+			fid, ok := ce.Fun.(*ast.Ident)
+			if !ok {
+				return nil, false
+			}
+			fn, ok := fns[fid.Name]
+			if !ok {
+				return nil, false
+			}
+			args, ok := refs(ce.Args)
+			if !ok {
+				return nil, false
+			}
+			var outs []string
+			for i, e := range s.Lhs {
+				id, ok := e.(*ast.Ident)
+				if !ok {
+					return nil, false
+				}
+				if i == len(s.Lhs)-1 {
+					errs[id.Name] = calls
+				} else {
+					vals[id.Name] = [2]int{calls + 1, i}
+					outs = append(outs, fmt.Sprintf("(%d %d)", calls+1, i))
+				}
+			}
+			ir = append(ir, fmt.Sprintf("(call (%s) %d %d %s)", strings.Join(outs, " "), calls, fn, args))
+			calls++
+		case *ast.IfStmt:
+			be, ok := s.Cond.(*ast.BinaryExpr)
+			if !ok || be.Op != token.NEQ || s.Init != nil || s.Else != nil || len(s.Body.List) != 1 {
+				return nil, false
+			}
+			x, ok1 := be.X.(*ast.Ident)
+			y, ok2 := be.Y.(*ast.Ident)
+			if !ok1 || !ok2 || y.Name != "nil" {
+				return nil, false
+			}
+			ev, ok := errs[x.Name]
+			if !ok {
+				return nil, false
+			}
+			r, ok := s.Body.List[0].(*ast.ReturnStmt)
+			if !ok || len(r.Results) == 0 {
+				return nil, false
+			}
+			last, ok := r.Results[len(r.Results)-1].(*ast.Ident)
+			if !ok || last.Name != x.Name {
+				return nil, false
+			}
+			for _, e := range r.Results[:len(r.Results)-1] {
+				// a zero slot must not mention a variable
+				bad := false
+				ast.Inspect(e, func(n ast.Node) bool {
+					if id, ok := n.(*ast.Ident); ok {
+						if _, isVal := vals[id.Name]; isVal {
+							bad = true
+						}
+						if _, isErr := errs[id.Name]; isErr {
+							bad = true
+						}
+					}
+					return true
+				})
+				if bad {
+					return nil, false
+				}
+			}
+			ir = append(ir, fmt.Sprintf("(iferr %d %d)", ev, len(r.Results)-1))
+		case *ast.ReturnStmt:
+			if len(s.Results) == 0 {
+				return nil, false
+			}
+			last, ok := s.Results[len(s.Results)-1].(*ast.Ident)
+			if !ok || last.Name != "nil" {
+				return nil, false
+			}
+			vs, ok := refs(s.Results[:len(s.Results)-1])
+			if !ok {
+				return nil, false
+			}
+			ir = append(ir, fmt.Sprintf("(ret %s)", vs))
+		default:
+			return nil, false
+		}
+	}
+	return ir, true
 }
